@@ -27,30 +27,7 @@ ASSUMPTIONS = ["EL6002 handshake: a chunk is announced by toggling the "
 S = "ebpfcat.serial.Serial"
 
 
-def run(chk, repo):
-    # the strings and handshake bits travel through PacketVar accessors:
-    # their rules (shared with C19) are necessary conditions here
-    from . import c19
-    chk.doc("R19.2", "accessors transfer the declared bytes/bit unchanged "
-                     "(shared with C19)")
-    chk.doc("R19.4", "accessor closures (shared with C19)")
-    c19.widths(chk, repo)
-    c19.closures(chk, repo)
-    # what is on the wire for a serial terminal: the frame that is
-    # (re)sent carries the current handshake bits and string (shared with
-    # C30), and the channel's bytes lie inside its terminal's region
-    # (shared with C18)
-    from . import c30, c18
-    chk.doc("R30.3", "which frame is (re)sent (shared with C30)")
-    c30.sends(chk, repo)
-    chk.doc("R18.6", "allocation decoded independently (shared with C18)")
-    c18.allocation_semantic(chk, repo)
-    chk.doc("R28.1", "one toggle per chunk, with the data")
-    chk.doc("R28.2", "chunk fits the terminal's string and channel block")
-    chk.doc("R28.3", "initialisation")
-    sym = S + ".update"
-    f = repo.func(sym)
-    chk.analysed(sym)
+def update_shape(chk, repo, f, sym):
     ftop = body_without_docstring(f)
     # canonical shape (E0): `if self.connected: <cycle> else: <handshake>`
     split = [s for s in ftop if isinstance(s, ast.If) and match(
@@ -203,8 +180,162 @@ def run(chk, repo):
     chk.ob("R28.1", sym, "receive, accept, new chunk, present - in this "
            "order", order == sorted(order), f, "an accepted chunk frees the "
            "slot before the next one is read in the same cycle")
+    return reads
+
+
+def step_table(chk, repo, f, sym):
+    """Serial.update as a step function of a finite state, by abstract
+    execution over *all* values of the handshake bits and flags it reads
+    (connected, init_accept, the four terminal bits and their remembered
+    copies, an outstanding chunk or none) x what the application's pipe
+    offers (nothing, end of file, a chunk): the state afterwards and what
+    was delivered are compared with the protocol - one delivery and one
+    accept toggle per announced chunk, the request bit toggled exactly
+    when a new non-empty chunk was taken and none was outstanding, an
+    outstanding chunk kept until the terminal's accept bit changes, peer
+    bits latched when the handshake completes.  Returns the size asked
+    from the pipe, or None when update() cannot be evaluated."""
+    import itertools
+    sc = repo.cls(S)
+    B = (False, True)
+    bad = []
+    rows = 0
+    sizes = set()
+    for (conn, iacc, rreq, lrreq, lracc, tacc, ltacc, ltreq) in \
+            itertools.product(B, repeat=8):
+        for cur in (None, b"old"):
+            for pipe in ("empty", "eof", b"new!"):
+                rows += 1
+                log = []
+
+                def os_read(fd, n_, _p=pipe, _l=log):
+                    _l.append(("read", fd, n_))
+                    if _p == "empty":
+                        raise Raised("BlockingIOError")
+                    return b"" if _p == "eof" else _p
+
+                def os_write(fd, data, _l=log):
+                    _l.append(("write", fd, bytes(data)))
+                    return len(data)
+                st = {"connected": conn, "init_accept": iacc,
+                      "receive_request": rreq, "transmit_accept": tacc,
+                      "last_receive_accept": lracc,
+                      "last_transmit_request": ltreq,
+                      "current_transmit": cur, "in_string": b"rx",
+                      "in_write": 7, "out_read": 8,
+                      "receive_accept": lracc, "transmit_request": ltreq,
+                      "out_string": b"??", "init_request": None}
+                if conn:
+                    st["last_receive_request"] = lrreq
+                    st["last_transmit_accept"] = ltacc
+                me = Obj(sc, dict(st))
+                ev = Evaluator(repo, f._module, sc, funcs={"os": Obj(None, {
+                    "read": ("hook", os_read), "write": ("hook", os_write)})})
+                try:
+                    ev.call_function(f, [me], cls=sc)
+                except Unknown:
+                    return None
+                except Raised as e:
+                    bad.append(f"state {st}: raises {e.what[:30]}")
+                    continue
+                g = me.fields
+                w = dict(st)
+                wlog = []
+                if not conn:
+                    if iacc:
+                        w.update(connected=True, init_request=False,
+                                 last_transmit_accept=tacc,
+                                 last_receive_request=rreq)
+                        wlog.append(("write", 7, b"A"))
+                    else:
+                        w.update(init_request=True)
+                else:
+                    w["init_request"] = False
+                    if lrreq != rreq:
+                        wlog.append(("write", 7, b"rx"))
+                        w["last_receive_accept"] = not lracc
+                        w["receive_accept"] = not lracc
+                    w["last_receive_request"] = rreq
+                    c2 = cur
+                    if ltacc != tacc:
+                        c2 = None
+                        w["last_transmit_accept"] = tacc
+                    if c2 is None:
+                        wlog.append(("read", 8, None))
+                        if isinstance(pipe, bytes):
+                            c2 = pipe
+                            w["last_transmit_request"] = not ltreq
+                    w["current_transmit"] = c2
+                    if c2 is not None:
+                        w["out_string"] = c2
+                    w["transmit_request"] = w["last_transmit_request"]
+                glog = [(k, fd, None if k == "read" else d)
+                        for k, fd, d in log]
+                sizes |= {d for k, fd, d in log if k == "read"}
+                diff = {k: (g.get(k), v) for k, v in w.items()
+                        if g.get(k) != v}
+                tag = (f"connected={int(conn)} init_accept={int(iacc)} "
+                       f"rx request {int(lrreq)}->{int(rreq)} tx accept "
+                       f"{int(ltacc)}->{int(tacc)} outstanding "
+                       f"{cur!r} pipe {pipe!r}")
+                if glog != wlog:
+                    if len(bad) < 6:
+                        bad.append(f"{tag}: pipe operations {glog}, "
+                                   f"expected {wlog}")
+                elif diff and len(bad) < 6:
+                    k0 = sorted(diff)[0]
+                    bad.append(f"{tag}: {k0} becomes {diff[k0][0]!r}, "
+                               f"expected {diff[k0][1]!r}")
+    chk.ob("R28.1", sym, f"update() is the protocol's step function: one "
+           f"delivery and accept toggle per announced chunk, the request "
+           f"bit toggled exactly with a new non-empty chunk, an outstanding "
+           f"chunk kept until accepted, peer bits latched at the end of the "
+           f"handshake ({rows} states x pipe conditions, by abstract "
+           f"execution, exhaustive over the bits)", not bad, f,
+           "; ".join(bad[:3]) or "every state of the handshake bits")
+    sc_attrs = repo.cls(S)
+    for attr in ("last_transmit_accept", "last_receive_request"):
+        chk.ob("R28.3", S, f"{attr} has no class-level default", attr not in
+               sc_attrs.attrs, sc_attrs.attr_stmts.get(attr, sc_attrs.node),
+               "the remembered peer bits exist only once latched")
+    if len(sizes) != 1:
+        return None if not sizes else max(sizes)
+    return next(iter(sizes))
+
+
+def run(chk, repo):
+    # the strings and handshake bits travel through PacketVar accessors:
+    # their rules (shared with C19) are necessary conditions here
+    from . import c19
+    chk.doc("R19.2", "accessors transfer the declared bytes/bit unchanged "
+                     "(shared with C19)")
+    chk.doc("R19.4", "accessor closures (shared with C19)")
+    c19.widths(chk, repo)
+    c19.closures(chk, repo)
+    # what is on the wire for a serial terminal: the frame that is
+    # (re)sent carries the current handshake bits and string (shared with
+    # C30), and the channel's bytes lie inside its terminal's region
+    # (shared with C18)
+    from . import c30, c18
+    chk.doc("R30.3", "which frame is (re)sent (shared with C30)")
+    c30.sends(chk, repo)
+    chk.doc("R18.6", "allocation decoded independently (shared with C18)")
+    c18.allocation_semantic(chk, repo)
+    chk.doc("R28.1", "one toggle per chunk, with the data")
+    chk.doc("R28.2", "chunk fits the terminal's string and channel block")
+    chk.doc("R28.3", "initialisation")
+    sym = S + ".update"
+    f = repo.func(sym)
+    chk.analysed(sym)
+    n_read = step_table(chk, repo, f, sym)
+    if n_read is None:
+        # update() cannot be executed abstractly: its shape is looked at
+        reads = update_shape(chk, repo, f, sym)
+    else:
+        reads = [(c, b_) for c, b_ in find("os.read($fd, $n)", f)]
     # ---------------------------------------------------------- R28.2
-    n = int_const(reads[0][1]["n"]) if reads else None
+    n = n_read if n_read is not None else (
+        int_const(reads[0][1]["n"]) if reads else None)
     ch = repo.cls("ebpfcat.terminals.EL6002.Channel")
     ev = Evaluator(repo, ch.module, ch)
     # every serial channel class (the EL6022's inherits from the EL6002's):
